@@ -22,6 +22,7 @@ type compiledQuery struct {
 	compiled       bool
 	targetCompiled bool
 	locked         bool
+	world          *ecs.World // The world the filter was compiled for. Component IDs differ between worlds.
 }
 
 func newCompiledQuery() compiledQuery {
@@ -30,9 +31,10 @@ func newCompiledQuery() compiledQuery {
 
 // Compile compiles a generic filter.
 func (q *compiledQuery) Compile(w *ecs.World, include, optional, exclude []Comp, exclusive bool, targetType Comp, target ecs.Entity, hasTarget bool) {
-	if q.compiled {
+	if q.compiled && (q.world == w || q.locked) {
 		return
 	}
+	q.world = w
 
 	q.Ids = toIds(w, include)
 
